@@ -5,7 +5,7 @@
    connect; eqv = equivalence closure (Lib/Closure.v); valuations ρ : var → Qc (exact rationals). *)
 From stdpp Require Import gmap strings.
 From Coq Require Import QArith Qcanon Ascii String.
-From PV Require Import Lib.Closure Lib.DotJoin Model.C09_connect Proofs.C09_connect Proofs.C09_names.
+From PV Require Import Lib.Closure Lib.DotJoin Model.C09_connect Proofs.C09_connect Proofs.C09_names Proofs.C09_indexed.
 Close Scope Qc_scope.
 Close Scope Q_scope.
 Close Scope string_scope.
@@ -174,3 +174,78 @@ Proof.
   - apply (bool_decide_unpack _). by vm_compute.
 Qed.
 Print Assumptions C09_string_example.
+
+(* ---------------- indexed names: array elements ---------------- *)
+(* a segment = identifier with integer subscripts; the core theorems hold by instantiation *)
+Theorem C09_partition_indexed (flows : list ivar) (cs : list fclauseI) :
+  let P := flow_pairs cs in
+  let sets := sets_of (fc (run_clauses flows cs)) in
+  NoDup sets ∧
+  (∀ S T, S ∈ sets → T ∈ sets → S ≠ T → S ## T) ∧
+  (∀ S, S ∈ sets → ∃ k, mentioned P k ∧ k ∈ S ∧ ∀ v, v ∈ S ↔ eqv P k v) ∧
+  (∀ k, mentioned P k → ∃ S, S ∈ sets ∧ k ∈ S) ∧
+  (∀ a b, mentioned P a → (∃ S, S ∈ sets ∧ a ∈ S ∧ b ∈ S) ↔ eqv P a b).
+Proof. exact (C09_partition flows cs). Qed.
+Print Assumptions C09_partition_indexed.
+
+Theorem C09_flow_indexed (flows : list ivar) (cs : list fclauseI) (ρ : ivar → Qc) :
+  sat ρ (flow_eqs flows cs) ↔ flow_spec flows (flow_pairs cs) ρ.
+Proof. exact (C09_flow flows cs ρ). Qed.
+Print Assumptions C09_flow_indexed.
+
+Theorem C09_potential_indexed (cs : list fclauseI) (ρ : ivar → Qc) :
+  sat ρ (pot_eqs cs) ↔ ∀ a b, eqv (pot_pairs cs) a b → ρ a = ρ b.
+Proof. exact (C09_potential cs ρ). Qed.
+Print Assumptions C09_potential_indexed.
+
+Theorem C09_model_rows_indexed (i : inst iseg) (ρ : ivar → Qc) :
+  sat ρ (model_rows i) ↔
+  pot_spec (pot_pairs (flat_clauses [] i)) ρ ∧
+  flow_spec (flat_flows [] i) (flow_pairs (flat_clauses [] i)) ρ.
+Proof. exact (C09_model_rows i ρ). Qed.
+Print Assumptions C09_model_rows_indexed.
+
+Theorem C09_sharing_invariant_indexed (flows : list ivar) (cs : list fclauseI) :
+  let m := fc (run_clauses flows cs) in
+  ∀ k S, m !! k = Some S → k ∈ S ∧ ∀ v, v ∈ S → m !! v = Some S.
+Proof. exact (C09_sharing_invariant flows cs). Qed.
+Print Assumptions C09_sharing_invariant_indexed.
+
+(* the implementation removes zero defaults by array NAME (model_rows_byname).  When every array is
+   connected all-or-none this has exactly the solutions of the connection semantics ... *)
+Theorem C09_byname_all_or_none (i : inst iseg) (ρ : ivar → Qc) :
+  all_or_none (flat_flows [] i) (flow_pairs (flat_clauses [] i)) →
+  sat ρ (model_rows_byname i) ↔
+  pot_spec (pot_pairs (flat_clauses [] i)) ρ ∧
+  flow_spec (flat_flows [] i) (flow_pairs (flat_clauses [] i)) ρ.
+Proof.
+  intros Han. unfold model_rows_byname. rewrite (byname_agrees _ _ ρ Han). exact (C09_model_rows i ρ).
+Qed.
+Print Assumptions C09_byname_all_or_none.
+
+(* ... and without that hypothesis it does not (known finding):  Pin t[2]; Pin u; connect(t[1], u)
+   leaves t[2].i free — a valuation with t[2].i = 1 satisfies the by-name rows, not the semantics *)
+Definition ex_ipin : list (iseg * kind) := [((10%positive, []), KPot); ((11%positive, []), KFlow)].
+Definition ex_t : inst iseg :=
+  Inst [((20%positive, [1%Z]), ex_ipin); ((20%positive, [2%Z]), ex_ipin); ((21%positive, []), ex_ipin)] []
+       [Clause (CRef None (20%positive, [1%Z])) (CRef None (21%positive, [])) ex_ipin].
+Definition ex_irho (v : ivar) : Qc :=
+  if decide (v = [(20%positive, [2%Z]); (11%positive, [])]) then 1%Qc else 0%Qc.
+Definition ex_rows_byname : list (list (ivar * Z)) := model_rows_byname ex_t.
+Definition ex_rows_exact : list (list (ivar * Z)) := model_rows ex_t.
+
+Theorem C09_byname_refuted : sat ex_irho ex_rows_byname ∧ ¬ sat ex_irho ex_rows_exact.
+Proof.
+  split.
+  - unfold sat. apply Forall_forall. intros r Hr.
+    assert (Hb : forallb (fun r => Qeq_bool (Qcanon.this (eval ex_irho r)) 0%Q) ex_rows_byname = true)
+      by (vm_compute; reflexivity).
+    rewrite forallb_forall in Hb. apply elem_of_list_In in Hr. specialize (Hb r Hr).
+    apply Qc_is_canon. apply Qeq_bool_eq in Hb. exact Hb.
+  - unfold sat. rewrite Forall_forall. intros Hall.
+    assert (Hb : existsb (fun r => negb (Qeq_bool (Qcanon.this (eval ex_irho r)) 0%Q)) ex_rows_exact = true)
+      by (vm_compute; reflexivity).
+    apply existsb_exists in Hb as (r & Hr & Hb). apply elem_of_list_In in Hr.
+    specialize (Hall r Hr). rewrite Hall in Hb. vm_compute in Hb. discriminate Hb.
+Qed.
+Print Assumptions C09_byname_refuted.
